@@ -483,6 +483,29 @@ func TestVerifC40Programs(t *testing.T) {
 			rapid.Uint64().Draw(t, "salt")
 		}
 		p := c40GenProgram(t)
+		for _, k := range p.excluded {
+			rec.Excluded(k)
+		}
+		if w := c40Known(c40KnownAPIRestart); w {
+			for _, a := range p.Actors {
+				if a.Kind == "conf" {
+					rec.Excluded(c40KnownAPIRestart) // edits of this actor are serialised against API restarts
+				}
+			}
+		}
+		for _, a := range p.Actors {
+			for _, st := range a.Steps {
+				switch {
+				case st.Op == "metrics" && c40Known(c40KnownMetricsNil):
+					rec.Excluded(c40KnownMetricsNil) // this scrape is serialised against path manager restarts
+				case st.Op == "kick" && c40Known(c40KnownKick):
+					rec.Excluded(c40KnownKick) // the session is looked up but not kicked
+				case c40Known(c40KnownRecordHook) && ((st.Op == "patchHot" && st.Arg%8 == 0) ||
+					(st.Op == "replacePath" && st.Arg%3 == 2) || (st.Op == "pathDefaults" && st.Arg%4 == 2)):
+					rec.Excluded(c40KnownRecordHook) // record:true replaced by record:false
+				}
+			}
+		}
 		fmt.Fprintf(os.Stderr, "C40 RUN: %s\n", p.String())
 		out, err := c40RunProgram(p, rec)
 		if err != nil {
